@@ -1,0 +1,37 @@
+//go:build verif
+
+package dhcpv6
+
+// Add-only verification hooks for property C01 (no address or prefix is held
+// by two subscribers). Compiled only with `-tags verif`; the accessors return
+// copies and change nothing.
+
+// VerifState returns a copy of the address pool's allocated map (DUID ->
+// address) and of its free list (in allocation order).
+func (p *AddressPool) VerifState() (allocated map[string]string, available []string) {
+	p.mu.Lock()
+	defer p.mu.Unlock()
+	allocated = make(map[string]string, len(p.allocated))
+	for d, ip := range p.allocated {
+		allocated[d] = ip.String()
+	}
+	for _, ip := range p.available {
+		available = append(available, ip.String())
+	}
+	return allocated, available
+}
+
+// VerifState returns a copy of the prefix pool's allocated map (DUID ->
+// prefix in CIDR notation) and of its free list (in allocation order).
+func (p *PrefixPool) VerifState() (allocated map[string]string, available []string) {
+	p.mu.Lock()
+	defer p.mu.Unlock()
+	allocated = make(map[string]string, len(p.allocated))
+	for d, n := range p.allocated {
+		allocated[d] = n.String()
+	}
+	for _, n := range p.available {
+		available = append(available, n.String())
+	}
+	return allocated, available
+}
